@@ -187,6 +187,7 @@ theorem observer_survives (cfg : Cfg) (s : St) (e : Ev) (p : Proc) (ht : cfg.tol
     simp only [apply]; by_cases hq : p = q
     · subst hq; simp [fresh]
     · simpa [upd_other _ _ _ _ hq] using ha
+  | recreate q => exact ha
 
 /-! ### witnesses: the hypotheses are satisfiable; what failed before the repairs
     (`cfgNow`, `cfgFixed`, `evsF6`, `evsLost`, `evsOk`, `notifiesOf` are defined in `Proofs/FileTokens.lean`) -/
